@@ -920,11 +920,34 @@ def _mask_ite(eng, mask, val, base, site):
     cut = eng.in_cut_site()
     if cut is not None:
         syms = {c.id: c for c in mask.reshape(-1) if T.is_term(c)}
+        decided = {}
         for c in syms.values():
-            eng.assume(T.lnot(c), f"generic-case cut: mask false in {cut}")
+            folded = eng._fold_near_tie(c)
+            if folded is not None:
+                # the compared quantity is identically zero in R (e.g. the residual of a column that has converged exactly):
+                # the mask is a constant, not a data-dependent guard
+                decided[c.id] = folded
+                continue
+            if _semantic_threshold(c):
+                # a comparison against a sizeable caller-chosen threshold (stop_updating_after = 0.5, ...) is a semantic
+                # decision of the algorithm, not a safe-division guard: fork on it
+                decided[c.id] = eng.decide(c, f"mask:{cut}")
+                continue
+            eng.assume(T.lnot(c), f"generic-case cut: mask false in {cut}: {T.show(c, 120)}")
             eng.cuts.append((cut, site, T.show(c, 80)))
-        mask = U(lambda c: False if T.is_term(c) else c, 1)(mask)
+        mask = U(lambda c: (decided.get(c.id, False) if T.is_term(c) else c), 1)(mask)
     return u_ite(mask, val, base)
+
+
+def _semantic_threshold(c):
+    while T.is_term(c) and c.op == "not":
+        c = c.args[0]
+    if not (T.is_term(c) and c.op in ("lt", "le")):
+        return False
+    for a in c.args:
+        if T.is_const(a) and not isinstance(a, bool) and abs(a) > Fraction(1, 10 ** 6):
+            return True
+    return False
 
 
 @op("masked_fill", "masked_fill_")
